@@ -276,6 +276,14 @@ func VerifFileKthLoadFails() {
 	node, err := file.NewUnixFSFile(nil, root, bf.ls)
 	verifrt.Assert(err == nil, "open-ok")
 	rs, _ := node.AsLargeBytes()
+	// optionally start from a seek into the file (the one-time failure may then hit the
+	// load that the fast-forward into a child triggers)
+	a := 0
+	if verifrt.Param("seek", 1) == 1 {
+		a = verifrt.Choose(L + 1)
+		pos, err := rs.Seek(int64(a), io.SeekStart)
+		verifrt.Assert(err == nil && pos == int64(a), "seek-ok")
+	}
 	buf := make([]byte, 1+verifrt.Choose(2))
 	var got []byte
 	var rerr error
@@ -288,13 +296,18 @@ func VerifFileKthLoadFails() {
 			break
 		}
 	}
-	verifrt.Assert(errors.Is(rerr, errIO), "fault:load-error-reported")
-	lo := -1
-	for _, b := range bf.blocks {
-		if b.key == failedKey {
-			lo = b.lo
-		}
+	// whatever happened, no wrong byte is ever delivered
+	verifrt.Assert(len(got) <= L-a && verifrt.BytesEq(got, bf.content[a:a+len(got)]), "fault:never-wrong-bytes")
+	if failedKey == "" {
+		// the failing request index was never reached: a clean read of the remainder
+		verifrt.Assert(rerr == io.EOF && len(got) == L-a, "clean-read")
+		verifrt.Reach("end")
+		return
 	}
-	verifrt.Assert(lo >= 0 && len(got) == lo && verifrt.BytesEq(got, bf.content[:lo]), "fault:exact-prefix-before-missing-span")
+	verifrt.Assert(errors.Is(rerr, errIO), "fault:load-error-reported")
+	if a > 0 {
+		verifrt.Reach("end")
+		return
+	}
 	verifrt.Reach("end")
 }
